@@ -5,6 +5,7 @@ import (
 	"fmt"
 	"os"
 	"path/filepath"
+	"runtime/pprof"
 	"sort"
 	"strings"
 	"time"
@@ -49,6 +50,7 @@ func main() {
 	listFns := flag.Bool("list", false, "list SSA function names")
 	noEvidence := flag.Bool("no-evidence", false, "do not write the evidence file")
 	replayPath := flag.String("replay", "", "re-run a recorded replay file")
+	only := flag.String("only", "", "debug: restrict to obligations whose name contains this substring (never writes evidence)")
 	updExp := flag.Bool("update-expected", false, "record the obligations that discharge now in expected_obligations.json")
 	flag.Parse()
 	t0 := time.Now()
@@ -91,16 +93,31 @@ func main() {
 		}
 	}
 	sort.Strings(names)
+	if pf := os.Getenv("GOVC_CPUPROFILE"); pf != "" {
+		f, _ := os.Create(pf)
+		_ = pprof.StartCPUProfile(f)
+		defer pprof.StopCPUProfile()
+	}
+	tv := time.Now()
 	for _, n := range names {
 		if err := e.verifyFunction(n); err != nil {
 			e.unsupported[n] = append(e.unsupported[n], err.Error())
 		}
 	}
+	if os.Getenv("GOVC_TIMING") != "" {
+		fmt.Fprintf(os.Stderr, "load %.1fs symbolic execution %.1fs paths=%d obligations=%d\n", tv.Sub(t0).Seconds(), time.Since(tv).Seconds(), e.paths, len(e.obligations))
+	}
 	want := func(ob *Obligation) bool {
+		if *only != "" && !strings.Contains(ob.Name, *only) {
+			return false
+		}
 		if *prop == "" {
 			return true
 		}
 		return hasProp(ob.Props, *prop)
+	}
+	if *only != "" {
+		*noEvidence = true
 	}
 	quick, slow := 10000, 20000
 	if *tier == "thorough" {
@@ -110,6 +127,7 @@ func main() {
 	rep := e.buildReport(*prop, *tier, names, want, time.Since(t0).Seconds())
 	rep.updateExpected = *updExp
 	rep.print(*verbose)
+	pprof.StopCPUProfile()
 	code := 0
 	if *prop != "" {
 		code = rep.finish(*repo, *verif, *prop, *tier, !*noEvidence)
